@@ -16,7 +16,7 @@
    parsing agree on every line strict parsing accepts and that the result does not depend on the parser object's
    history. *)
 From Clikit Require Import Base.Prelude Base.Res Model.Conv Model.Format Model.Parser Model.Spell
-     Proofs.ParserLemmas Proofs.SpellLemmas.
+     Proofs.ParserLemmas Proofs.SpellDenote Proofs.SpellLemmas.
 
 Theorem access_agrees_options : forall f a n m o,
   get_option f n true = Ok o -> get_option f m true = Ok o -> args_option f a n = args_option f a m.
@@ -81,3 +81,51 @@ Theorem parse_spells_not_vacuous :
   fmt_ok SpellExamples.F2 = true /\ wf_line SpellExamples.F2 SpellExamples.D1 = true.
 Proof. exact (conj SpellExamples.F1_ok (conj SpellExamples.D1_wf (conj SpellExamples.F2_ok (proj1 SpellExamples.D1_parses_over_base)))). Qed.
 Print Assumptions parse_spells_not_vacuous.
+Theorem spelling_parses : forall f asg line, fmt_ok f = true -> spells f asg line ->
+  forall lenient, parse f lenient line = Ok asg.
+Proof. exact spells_parse. Qed.
+Print Assumptions spelling_parses.
+
+(* ---- what the spelled assignment [denote f d] reports through the read side of Args ---- *)
+(* marks as set exactly what was given *)
+Theorem spelled_options_marked_set : forall f d n o, get_option f n true = Ok o -> has_option f n true = true ->
+  args_is_option_set f (denote f d) n = mentions (o_long o) (events d).
+Proof. exact denote_option_set. Qed.
+Print Assumptions spelled_options_marked_set.
+(* reports the declared default for every option not given *)
+Theorem unspelled_option_default : forall f d n o, get_option f n true = Ok o ->
+  mentions (o_long o) (events d) = false -> args_option f (denote f d) n = Ok (opt_default_value o).
+Proof. exact denote_option_unset. Qed.
+Print Assumptions unspelled_option_default.
+(* a single-valued option reports the converted value of its last occurrence (True for a flag, the converted
+   default for an omitted optional value) *)
+Theorem spelled_single_option : forall f d n o es1 e es2, get_option f n true = Ok o ->
+  events d = es1 ++ e :: es2 -> ev_key e = o_long o -> mentions (o_long o) es2 = false ->
+  (match snd e with GText _ => o_multi (fst e) = false | _ => True end) ->
+  args_option f (denote f d) n = Ok (event_value e).
+Proof. exact denote_option_single. Qed.
+Print Assumptions spelled_single_option.
+(* a multi-valued option reports all its values, converted, in line order *)
+Theorem spelled_multi_option : forall f d n o, fmt_ok f = true -> wf_line f d = true ->
+  get_option f n true = Ok o -> get_option f (o_long o) true = Ok o ->
+  o_multi o = true -> mentions (o_long o) (events d) = true ->
+  args_option f (denote f d) n = Ok (VList (map (fun s => conv_opt o (VStr s)) (texts_of (o_long o) (events d)))).
+Proof. exact spelled_multi_option_lemma. Qed.
+Print Assumptions spelled_multi_option.
+(* the i-th declared argument, by name or by position: set iff a value reached it; reports the converted value
+   (all remaining values for a multi-valued argument) or the declared default *)
+Theorem spelled_argument_set : forall f d i a r, fmt_ok f = true -> wf_line f d = true ->
+  nth_error (get_arguments_all f) i = Some (a_name a, a) ->
+  get_argument f r true = Ok a -> has_argument f r true = true ->
+  args_is_argument_set f (denote f d) r = (i <? length (values d)).
+Proof. exact spelled_argument_set_lemma. Qed.
+Print Assumptions spelled_argument_set.
+Theorem spelled_argument_value : forall f d i a r, fmt_ok f = true -> wf_line f d = true ->
+  nth_error (get_arguments_all f) i = Some (a_name a, a) ->
+  get_argument f r true = Ok a -> has_argument f r true = true ->
+  args_argument f (denote f d) r =
+  Ok (if i <? length (values d)
+      then (if a_multi a then VList (map (conv_arg a) (skipn i (values d))) else conv_arg a (nth i (values d) []))
+      else a_default a).
+Proof. exact spelled_argument_value_lemma. Qed.
+Print Assumptions spelled_argument_value.
